@@ -27,6 +27,7 @@ CLAUSES = {
     "C18": ["C18_confine"],
     "C19": ["C19_order", "C19_pace", "C19_auto"],
     "C08": ["C08_done"],
+    "C11": ["C11_unchanged", "C10_refuse"],
 }
 
 BASE_CONST = {
@@ -103,6 +104,8 @@ PROPS = {
             "profiles": {"default": (80, 2000), "excl": (120, 3000)}, "conf": {"conf_full": (60, 800)}},
     "C14": {"mc_quick": ["c14"], "mc_thorough": ["c14", "c04"],
             "profiles": {"hooks": (200, 5000)}, "conf": {"conf_full": (60, 800)}},
+    "C11": {"mc_quick": ["c10", "c15"], "mc_thorough": ["c10", "c15t", "c05"],
+            "profiles": {"refusal": (250, 6000)}, "conf": {"conf_dir": (40, 500)}},
     "C13": {"mc_quick": ["c01"], "mc_thorough": ["c01", "c01_deep"],
             "profiles": {"default": (80, 2000), "count": (120, 3000)}, "conf": {"conf_full": (60, 800)}},
     "C15": {"mc_quick": ["c15"], "mc_thorough": ["c15", "c15t"],
